@@ -1,5 +1,6 @@
 import PrimaiteModel.Model.C13Wire
 import PrimaiteModel.Model.C13Recv
+import PrimaiteModel.Model.C13Bots
 open Primaite Primaite.Lifecycle Primaite.Registries Primaite.Recv
 
 /-! Line-protocol driver for the receive-path / payload model (C13, round 3): two nodes `A` and `B` with class data and an
@@ -237,8 +238,39 @@ def wstep (w : World) (ws : List String) : World × String :=
     | none => (w, "bad-op")
   | [] => (w, "bad-op")
 
+open Primaite.Bots in
+/-- the attack loops of the red applications (stateless: the rig passes the instance's state before the call) -/
+def botStep (ws : List String) : String :=
+  let dosStage : String → Option DosStage
+    | "0" => some .notStarted | "1" => some .portScan | "2" => some .attacking | "3" => some .completed | _ => none
+  let dmStage : String → Option DmStage
+    | "0" => some .notStarted | "1" => some .logon | "2" => some .portScan | "3" => some .attacking | "4" => some .succeeded
+    | "5" => some .failed | _ => none
+  let bits (s : String) : List Bool := if s = "-" then [] else s.toList.map (· == '1')
+  match ws with
+  | ["dos", can, cfg, rep, trial, sessions, st] =>
+    match parseBool can, parseBool cfg, parseBool rep, parseBool trial, sessions.toNat?, dosStage st with
+    | some can, some cfg, some rep, some trial, some n, some st =>
+      let o := dosLoop can cfg rep trial n st
+      s!"stage={o.stage.value} connects={o.connects} trials={o.trialsUsed} ret={showBool o.ret}"
+    | _, _, _, _, _, _ => "bad-op"
+  | ["dm", can, cfg, rep, hc, offer, trials, conn, st] =>
+    match parseBool can, parseBool cfg, parseBool rep, parseBool hc, parseOptBool offer, parseOptBool conn, dmStage st with
+    | some can, some cfg, some rep, some hc, some offer, some conn, some st =>
+      let o := dmLoop can cfg rep { hasClient := hc, offer := offer } (bits trials) conn st
+      s!"stage={o.stage.value} conn={showOptBool o.conn} asked={o.asked} queries={o.queries} trials={o.trialsUsed} ret={showBool o.ret}"
+    | _, _, _, _, _, _, _ => "bad-op"
+  | ["rw", can, cfg, hc, offer, conn] =>
+    match parseBool can, parseBool cfg, parseBool hc, parseOptBool offer, parseOptBool conn with
+    | some can, some cfg, some hc, some offer, some conn =>
+      let o := rwLoop can cfg { hasClient := hc, offer := offer } conn
+      s!"conn={showOptBool o.conn} asked={o.asked} queries={o.queries} ret={showBool o.ret}"
+    | _, _, _, _, _ => "bad-op"
+  | _ => "bad-op"
+
 def step (st : St) (ws : List String) : St × String :=
   match ws with
+  | "bot" :: rest => (st, botStep rest)
   | "conn" :: rest => let (c', o) := connStep st.c rest; ({ st with c := c' }, o)
   | ws => let (w', o) := wstep st.w ws; ({ st with w := w' }, o)
 
